@@ -3,8 +3,6 @@
 package zzclike
 
 import (
-	"math/bits"
-
 	zz "github.com/gogpu/naga/internal/zzverif"
 )
 
@@ -360,20 +358,87 @@ func (p *Program) call(e *node) *Val {
 					return &Val{T: x.T, S: x.S &^ 0x80000000}
 				case 'i':
 					if int32(x.S) < 0 {
-						zz.Assert(p.d != MSL && p.d != GLSL || x.S != 0x80000000, "emitted text takes abs(INT_MIN): undefined in the target language")
+						zz.Assert(p.d != MSL || x.S != 0x80000000, "emitted MSL takes abs(INT_MIN): undefined (C++14)")
 						return &Val{T: x.T, S: -x.S}
 					}
 				}
 				return x
 			})
 		}
+	case "firstbithigh", "findMSB": // index of the most significant 1 (for negative ints: 0) bit; -1 if none
+		if need(1) {
+			return mapComps(as, func(xs []*Val) *Val {
+				x := xs[0].S
+				if xs[0].T.K == 'i' {
+					x ^= uint32(int32(x) >> 31)
+				}
+				rt := xs[0].T
+				if p.d == GLSL {
+					rt = tInt
+				}
+				return &Val{T: rt, S: 31 - clz32(x)}
+			})
+		}
+	case "firstbitlow", "findLSB": // index of the least significant 1 bit; -1 if none
+		if need(1) {
+			return mapComps(as, func(xs []*Val) *Val {
+				rt := xs[0].T
+				if p.d == GLSL {
+					rt = tInt
+				}
+				tz := ctz32(xs[0].S)
+				return &Val{T: rt, S: tz | -(tz >> 5)}
+			})
+		}
+	case "clz":
+		if need(1) {
+			return mapComps(as, func(xs []*Val) *Val { return &Val{T: xs[0].T, S: clz32(xs[0].S)} })
+		}
+	case "ctz":
+		if need(1) {
+			return mapComps(as, func(xs []*Val) *Val { return &Val{T: xs[0].T, S: ctz32(xs[0].S)} })
+		}
+	case "extract_bits", "bitfieldExtract":
+		if need(3) {
+			return mapComps(as, func(xs []*Val) *Val {
+				off, cnt := p.convert(xs[1], tUint).S, p.convert(xs[2], tUint).S
+				zz.Assert(off <= 32 && cnt <= 32 && off+cnt <= 32, "emitted text extracts a bit field with offset + bits > 32 (or a negative one): undefined in the target language")
+				if off > 32 || cnt > 32 || off+cnt > 32 {
+					return &Val{T: xs[0].T}
+				}
+				v := uint32((uint64(xs[0].S) >> off) & (uint64(1)<<cnt - 1))
+				if xs[0].T.K == 'i' && cnt > 0 && cnt < 32 { // sign-extend
+					sh := 32 - cnt
+					v = uint32(int32(v<<sh) >> sh)
+				}
+				return &Val{T: xs[0].T, S: v}
+			})
+		}
+	case "insert_bits", "bitfieldInsert":
+		if need(4) {
+			return mapComps(as, func(xs []*Val) *Val {
+				off, cnt := p.convert(xs[2], tUint).S, p.convert(xs[3], tUint).S
+				zz.Assert(off <= 32 && cnt <= 32 && off+cnt <= 32, "emitted text inserts a bit field with offset + bits > 32 (or a negative one): undefined in the target language")
+				if off > 32 || cnt > 32 || off+cnt > 32 {
+					return &Val{T: xs[0].T}
+				}
+				mask := uint32((uint64(1)<<cnt - 1) << off)
+				return &Val{T: xs[0].T, S: xs[0].S&^mask | uint32(uint64(xs[1].S)<<off)&mask}
+			})
+		}
 	case "countbits", "popcount", "bitCount":
 		if need(1) {
-			return mapComps(as, func(xs []*Val) *Val { return &Val{T: xs[0].T, S: uint32(bits.OnesCount32(xs[0].S))} })
+			return mapComps(as, func(xs []*Val) *Val {
+				rt := xs[0].T
+				if p.d == GLSL {
+					rt = tInt
+				}
+				return &Val{T: rt, S: popc32(xs[0].S)}
+			})
 		}
 	case "reversebits", "reverse_bits", "bitfieldReverse":
 		if need(1) {
-			return mapComps(as, func(xs []*Val) *Val { return &Val{T: xs[0].T, S: bits.Reverse32(xs[0].S)} })
+			return mapComps(as, func(xs []*Val) *Val { return &Val{T: xs[0].T, S: rev32(xs[0].S)} })
 		}
 	case "dot":
 		if need(2) && as[0].T.K == 'V' && as[1].T.K == 'V' && as[0].T.N == as[1].T.N {
@@ -581,4 +646,34 @@ func (p *Program) builtin(sem string, t *Type) *Val {
 		return u3(sz[0], sz[1], sz[2])
 	}
 	return nil
+}
+
+// branch-free bit counting (the reference closures of the templates use math/bits: the two
+// formulations are independent)
+func popc32(x uint32) uint32 {
+	// sum of the bits (the SWAR multiply form is not decided by the solvers against it)
+	var n uint32
+	for i := uint(0); i < 32; i++ {
+		n += x >> i & 1
+	}
+	return n
+}
+
+func clz32(x uint32) uint32 {
+	x |= x >> 1
+	x |= x >> 2
+	x |= x >> 4
+	x |= x >> 8
+	x |= x >> 16
+	return 32 - popc32(x)
+}
+
+func ctz32(x uint32) uint32 { return popc32((x & -x) - 1) }
+
+func rev32(x uint32) uint32 {
+	x = x>>1&0x55555555 | x&0x55555555<<1
+	x = x>>2&0x33333333 | x&0x33333333<<2
+	x = x>>4&0x0F0F0F0F | x&0x0F0F0F0F<<4
+	x = x>>8&0x00FF00FF | x&0x00FF00FF<<8
+	return x>>16 | x<<16
 }
